@@ -161,7 +161,7 @@ func purityJob(payload string) string {
 }
 
 func c11(c *Ctx) {
-	n := c.N(2500, 60000)
+	n := c.N(6000, 100000)
 	c.Rule = "random (query, document) pairs: queries over all functions (RemoveKeysBy*, Select, AsArray, filters returning sub-slices, aggregates with arguments, string and comparison functions, groups); documents with nested maps, []any and typed slices (some with spare capacity shared with a longer slice), and — tagged — maps whose sibling keys collide under case folding; each pair evaluated 3..50 times interleaved with 6 other operations on the same data and with evaluations on a deep copy; data and operation snapshots compared before/after. Non-trivial = the query parses and its first evaluation succeeds; distinct by (query, data)."
 	r := c.Rng
 	g := &qgen{c: c, Carriers: true}
